@@ -882,6 +882,9 @@ func c13DirectedCases(c *ctx) error {
 		}
 	}
 	// (4) known finding: re-upload of content whose blobs were orphaned before the index
+	if c.sub == "c14" {
+		return nil // the finding belongs to C13 and is recorded there
+	}
 	return c13Directed(c, "c13", "dedup-after-index", func(h *c13Hist) error {
 		if err := h.up(0, 0, []int{1}); err != nil {
 			return err
@@ -901,6 +904,11 @@ func c13DirectedCases(c *ctx) error {
 
 func c13(c *ctx) error {
 	if err := c13DirectedCases(c); err != nil {
+		return err
+	}
+	// the index-exactness histories of C14 (ticker-driven chunks, chunk sizes 1..9) feed delete-unused
+	// as well: an inexact index deletes data a committed bundle needs
+	if err := c14DirectedCases(c); err != nil {
 		return err
 	}
 	n, budget := 26, 8
@@ -1113,6 +1121,10 @@ func c14DirectedCases(c *ctx) error {
 
 func c14(c *ctx) error {
 	if err := c14DirectedCases(c); err != nil {
+		return err
+	}
+	// the resumed / retried / many-chunk index builds of C13 must be exact indexes too
+	if err := c13DirectedCases(c); err != nil {
 		return err
 	}
 	n, reps := 30, 1
